@@ -206,3 +206,15 @@ package db
 //@   callsite newKey@3 [range-to-end] arg0 == end
 //@   callsite newKey@4 [pivot-end] arg0 == end
 //@   modifies *
+
+// the producer's filter: the element equal to the (exclusive) end bound is passed over once, the walk stops at the
+// first element below start; whatever is neither is handed to the consumer (the hand-off itself — select on a
+// channel — is outside the translated subset)
+//@ func newMemDBIteratorMtxChoice$1$1(i) (cont)
+//@   props C18
+//@   nosafety
+//@   ensures [end-bound-passed-over] calls("bytes.Equal") == 1 && result("bytes.Equal@1") ==> cont && *skipEqual == nil
+//@   ensures [walk-stops-below-start] calls("bytes.Compare") == 1 && result("bytes.Compare@1") == 0 - 1 ==> !cont
+//@   callsite bytes.Equal [compared-with-end] arg1 == skipEqual && skipEqual != nil
+//@   callsite bytes.Compare [compared-with-start] arg1 == abortLessThan && abortLessThan != nil
+//@   modifies *
